@@ -182,30 +182,47 @@ Print Assumptions C16_matcher_never_matches_is_reported.
 (** * Which selectors are checked (the "checked selector" premise of (a)/(b), no longer an opaque list)
 
     Model/SeriesSelectors.v models getNonFallbackSelectors over the Source tree utils.LabelsSource builds
-    ([sources_of]: Selector / AlwaysReturns / IsConditional / Joins / Unless), including appendJoinSelectors (nested
-    joins followed) and selectorHasFallback (an [or] node with the selector on one side and an always-returning
-    other side); the harness compares [checked e] with the list the real function returns on every case.
-    For every expression of the fragment without [unless] (selectors, always-returning operands, wrappers,
-    comparisons with numbers, [or], joins on either primary side, arbitrarily nested; selectors identified by their
-    position): the checked selectors are ALL selectors of the expression EXCEPT those with their own or-fallback.
-    In particular an always-returning operand elsewhere in the query (and on() hour(), * on() group_left vector(1))
-    exempts nothing. *)
+    ([sources_of]: Selector / AlwaysReturns / IsConditional / Joins / Unless), including appendOperandSelectors (joins
+    and conditional unless operands followed recursively), appendUnlessSelectors and selectorHasFallback (an [or] node
+    with the selector on one side and an always-returning other side); the harness compares [checked e] with the list
+    the real function returns on every case.
+    For EVERY expression of the fragment (selectors, always-returning operands, wrappers, comparisons with numbers,
+    [or], joins on either primary side, [unless], arbitrarily nested; selectors identified by their position): the
+    checked selectors are the REACHABLE selectors of the expression except those with their own or-fallback, where
+    [reach] (Proofs/C16_selectors.v) is every selector of the expression except those inside an [unless] operand that is
+    not a condition: `foo unless bar` only tests the presence of bar (documented carve-out), `foo unless bar > 5`
+    depends on bar, and so does everything joined to bar or nested in it. *)
+Theorem C16_checked_selectors_are_the_reachable_ones_without_own_fallback : forall e,
+  NoDup (sels e) -> forall i,
+  In i (checked e) <-> In i (reach e) /\ or_fallback e i = false.
+Proof. exact checked_characterised_reach. Qed.
+Print Assumptions C16_checked_selectors_are_the_reachable_ones_without_own_fallback.
+
+(** Without [unless] every selector is reachable: the checked selectors are ALL selectors of the expression EXCEPT those
+    with their own or-fallback.  In particular an always-returning operand elsewhere in the query (and on() hour(),
+    * on() group_left vector(1)) exempts nothing. *)
 Theorem C16_checked_selectors_are_those_without_own_fallback : forall e,
   no_unless e = true -> NoDup (sels e) -> forall i,
   In i (checked e) <-> In i (sels e) /\ or_fallback e i = false.
 Proof. exact checked_characterised. Qed.
 Print Assumptions C16_checked_selectors_are_those_without_own_fallback.
 
-(** the witnesses of fix 2db4381 and of seed C16-3, and the documented fallback, computed:
+(** the witnesses of the fixes and of seed C16-3, and the documented carve-outs, computed:
     [notfound > 0 and on() hour()] checks notfound; [(a > 0 and on() hour()) / notfound] checks both;
     [a * on(x) (b * on(x) notfound)] checks all three; [sum(m or vector(0))] checks nothing;
-    [a * (b or vector(0))] checks a only. *)
+    [a * (b or vector(0))] checks a only; [a unless b] checks a only; [a unless b > 5] checks both;
+    [a / (b unless c > 5)] and [a unless (b * c) > 5] check all three; [a unless (b * c)] checks a only. *)
 Example C16_checked_selectors_examples :
   checked (EJoin false (ECmp (ESel 0)) EAlways) = [0%N] /\
   checked (EJoin false (EJoin false (ECmp (ESel 1)) EAlways) (ESel 30)) = [1%N; 30%N] /\
   checked (EJoin false (ESel 0) (EJoin false (ESel 11) (ESel 21))) = [0%N; 11%N; 21%N] /\
   checked (EWrap (EOr (ESel 4) EAlways)) = [] /\
-  checked (EJoin false (ESel 0) (EOr (ESel 5) EAlways)) = [0%N].
+  checked (EJoin false (ESel 0) (EOr (ESel 5) EAlways)) = [0%N] /\
+  checked (EUnless (ESel 0) (ESel 9)) = [0%N] /\
+  checked (EUnless (ESel 0) (ECmp (ESel 9))) = [0%N; 9%N] /\
+  checked (EJoin false (ESel 0) (EUnless (ESel 5) (ECmp (ESel 14)))) = [0%N; 5%N; 14%N] /\
+  checked (EUnless (ESel 0) (ECmp (EJoin false (ESel 10) (ESel 14)))) = [0%N; 10%N; 14%N] /\
+  checked (EUnless (ESel 0) (EJoin false (ESel 10) (ESel 14))) = [0%N].
 Proof. repeat split; vm_compute; reflexivity. Qed.
 
 (** Non-vacuity: a concrete database where the situations occur (premises satisfiable, conclusions computed):
